@@ -448,9 +448,9 @@ def visits(o):
     return out
 
 
-def de_rule(ctx, res):
+def de_rule(ctx, res, only=None, rule="C16.de"):
+    """`only`: restrict to the given deserialize_* methods (C17 needs deserialize_any and the sequence / map accessors)."""
     P = ctx.P
-    rule = "C16.de"
     VT = value_ty(P)
     vn = [v["name"] for v in VT["variants"]]
     number_methods = ["i8", "i16", "i32", "i64", "i128", "u8", "u16", "u32", "u64", "u128", "f32", "f64"]
@@ -467,6 +467,8 @@ def de_rule(ctx, res):
     for m in number_methods:
         table[m] = {"Number": "number"}
     for method, exp in sorted(table.items()):
+        if only is not None and method not in only:
+            continue
         root = "root_dev_" + method
         if root not in P.roots:
             res.violation(rule, "%s/%s/missing" % (rule, method), "root %s missing" % root)
@@ -513,7 +515,7 @@ def de_rule(ctx, res):
                         good = c[0] == want and c[1] == payload[0]
             check(res, good, rule, key, "deserialize_%s on Value::%s must drive the visitor with %s of the value's own content; calls %r" % (method, name, want, [[x[0] for x in c] for c in calls]),
                   sample={"method": "deserialize_" + method, "value": name, "visitor_call": want} if name in ("Null", "Array") else None)
-    res.floor(rule, "deserializer_cases", 50)
+    res.floor(rule, "deserializer_cases", 50 if only is None else 6 * len(only))
     # visit_array / visit_object: the access object is built from the value's own items, and everything must be consumed
     for fn, acc in (("visit_array", "ArrayDeserializer"), ("visit_object", "ObjectDeserializer")):
         try:
